@@ -185,6 +185,16 @@ def model_size(model) -> int:
     return n + len(model.functions) + 1
 
 
+class NameReg:
+    """Structural handles (names / positions) — used to compare a functional pass's result with its input."""
+
+    def __call__(self, o):
+        if o is None:
+            return None
+        nm = getattr(o, "name", None)
+        return f"{type(o).__name__}:{nm}"
+
+
 class Reg:
     """Stable small handles for Python objects (instead of id())."""
 
@@ -207,6 +217,13 @@ def snapshot(model, reg: Reg) -> dict:
     snap = {"functions": [str(k) for k in model.functions], "graphs": {}}
     for label, g in graphs_of(model):
         vals = {}
+        if isinstance(reg, NameReg):
+            nl = list(g)
+            uniq = len({n.name for n in nl}) == len(nl) and all(n.name for n in nl)
+            pos = {id(n): i for i, n in enumerate(nl)}
+            nkey = (lambda n: "n:" + n.name) if uniq else (lambda n: pos[id(n)])
+        else:
+            nkey = reg
 
         def see(v):
             if v is None:
@@ -221,8 +238,8 @@ def snapshot(model, reg: Reg) -> dict:
             "inputs": [see(v) for v in g.inputs],
             "outputs": [see(v) for v in g.outputs],
             "initializers": [(k, see(v)) for k, v in g.initializers.items()] if hasattr(g, "initializers") else [],
-            "order": [reg(n) for n in g],
-            "nodes": {reg(n): (n.name, n.domain, n.op_type, tuple(see(i) for i in n.inputs), tuple(see(o) for o in n.outputs),
+            "order": [nkey(n) for n in g],
+            "nodes": {nkey(n): (n.name, n.domain, n.op_type, tuple(see(i) for i in n.inputs), tuple(see(o) for o in n.outputs),
                                tuple(sorted(n.attributes.keys())), n.doc_string or None, tuple(sorted(n.metadata_props.items())))
                       for n in g},
             "doc": g.doc_string or None, "meta": tuple(sorted(g.metadata_props.items())),
@@ -235,6 +252,7 @@ def snapshot(model, reg: Reg) -> dict:
 
 def snap_diff(a: dict, b: dict) -> list[str]:
     out = []
+    seen_vals = set()      # a value read in several graphs is reported once, under the first graph that shows it
     if a["functions"] != b["functions"]:
         out.append("functions")
     for label in sorted(set(a["graphs"]) | set(b["graphs"])):
@@ -249,8 +267,8 @@ def snap_diff(a: dict, b: dict) -> list[str]:
                 else:
                     out.append(f"{label}:{k}")
         if ga["order"] != gb["order"]:
-            out.append(f"{label}:node-order" if sorted(ga["order"]) == sorted(gb["order"]) else f"{label}:node-set")
-        for h in sorted(set(ga["nodes"]) & set(gb["nodes"])):
+            out.append(f"{label}:node-order" if sorted(map(str, ga["order"])) == sorted(map(str, gb["order"])) else f"{label}:node-set")
+        for h in sorted(set(ga["nodes"]) & set(gb["nodes"]), key=str):
             na, nb = ga["nodes"][h], gb["nodes"][h]
             if na == nb:
                 continue
@@ -263,12 +281,16 @@ def snap_diff(a: dict, b: dict) -> list[str]:
                     if fld == "outputs" and na[4][:len(nb[4])] == nb[4]:
                         kind = "outputs-trimmed"
                     out.append(f"{label}:node:{kind}")
-        for h in sorted(set(ga["values"]) | set(gb["values"])):
+        for h in sorted(set(ga["values"]) | set(gb["values"]), key=str):
             va, vb = ga["values"].get(h), gb["values"].get(h)
+            if h in seen_vals:
+                continue
+            seen_vals.add(h)
             if va is not None and vb is not None and va != vb:
                 fields = ["name", "shape", "type", "const_value", "is_input", "is_output", "is_initializer", "doc", "meta"]
                 ch = [fields[i] for i in range(len(fields)) if va[i] != vb[i]]
-                out += [f"{label}:value:{c}" for c in ch]
+                role = "@init" if (va[6] or vb[6]) else ""
+                out += [f"{label}:value:{c}{role}" for c in ch]
     return sorted(set(out))
 
 
@@ -507,8 +529,8 @@ def onnx_fault(fault: str | None):
 
 # --------------------------------------------------------------------------- the property oracle
 
-def classify(f: str) -> str:
-    return f.split(" ")[0]
+def classify(f: dict) -> str:
+    return f["tag"]
 
 
 def oracle_run(spec: dict, pspec, fault: str | None = None, max_rounds: int | None = None) -> dict:
@@ -519,8 +541,16 @@ def oracle_run(spec: dict, pspec, fault: str | None = None, max_rounds: int | No
     reg = Reg()
     kind = pspec_kind(pspec)
     size = model_size(model)
+    # convergence is required of every built-in pass on its own (and of functionalize(P)); an arbitrary
+    # Sequential/PassManager composition may oscillate (e.g. Remove- then AddInitializersToInputs) -- not checked
+    composite = not isinstance(pspec, str) and "fun" not in pspec
     bound = size + 2 if max_rounds is None else max_rounds
-    failures: list[str] = []
+    if composite and max_rounds is None:
+        bound = 3
+    failures: list[dict] = []
+
+    def fail(tag, msg, diff=None):
+        failures.append({"tag": tag, "msg": msg, "diff": list(diff or []), "round": len(rounds)})
     rounds = []
     first_false = None
     inv0 = invariants(model)
@@ -529,6 +559,7 @@ def oracle_run(spec: dict, pspec, fault: str | None = None, max_rounds: int | No
     while r < bound:
         before = ser(model)
         snap_b = snapshot(model, reg)
+        snap_sb = snapshot(model, NameReg())
         uns_b = unsorted_graphs(model)
         unn_b = unnamed_used(model)
         inv_b = invariants(model) if r else inv0
@@ -543,14 +574,14 @@ def oracle_run(spec: dict, pspec, fault: str | None = None, max_rounds: int | No
             if kind in ("analysis", "shape"):
                 d = snap_diff(snap_b, snapshot(model, reg))
                 if d:
-                    failures.append(f"readonly-on-raise analysis pass raised {raised} and left the model changed: {d}")
+                    fail("readonly-on-raise", f"analysis pass raised {raised} and left the model changed", d)
             break
         out = res.model
         same = out is model
         if p.in_place and not same:
-            failures.append("identity in-place pass returned a different model object")
+            fail("identity", "in-place pass returned a different model object")
         if not p.in_place and same:
-            failures.append("identity functional pass returned its input object")
+            fail("identity", "functional pass returned its input object")
         after = ser(out)
         snap_a = snapshot(out, reg)
         rd = {"modified": bool(res.modified), "same": same, "ser_equal": (before == after) if before is not None and after is not None else None}
@@ -558,31 +589,33 @@ def oracle_run(spec: dict, pspec, fault: str | None = None, max_rounds: int | No
             # functional: the input must be left exactly as it was
             d_in = snap_diff(snap_b, snapshot(model, reg))
             if d_in and not p.changes_input:
-                failures.append(f"identity functional pass changed its input: {d_in}")
+                fail("identity", "functional pass changed its input", d_in)
         if not res.modified:
             if before is not None and after is not None and before != after:
-                d = snap_diff(snap_b, snap_a) if same else ["(different object)"]
-                failures.append(f"flag modified=False but the serialized model changed: {d}")
+                d = snap_diff(snap_b, snap_a) if same else snap_diff(snap_sb, snapshot(out, NameReg()))
+                fail("flag", "modified=False but the serialized model changed", d)
             if before is not None and after is None:
-                failures.append("flag modified=False but the model no longer serializes")
+                fail("flag", "modified=False but the model no longer serializes")
         if kind == "analysis" or (kind == "shape" and fault in ("infer_raises", "both_raise")) \
                 or (kind == "shape" and before is None):
             d = snap_diff(snap_b, snap_a) if same else []
             if d:
-                failures.append(f"readonly analysis/validation pass changed the model: {d}")
+                fail("readonly", "analysis/validation pass changed the model", d)
         inv_a = invariants(out)
         if inv_a - inv_b:
-            failures.append(f"invariants link consistency broken by the pass: {sorted(inv_a - inv_b)}")
+            fail("invariants", "link consistency broken by the pass", sorted(inv_a - inv_b))
         uns_a = unsorted_graphs(out)
         if not uns_b and uns_a:
-            failures.append(f"sorted a topologically ordered graph is no longer ordered: {sorted(uns_a)}")
+            fail("sorted", "a topologically ordered graph is no longer ordered", sorted(uns_a))
         if unn_b == 0 and unnamed_used(out) > 0:
-            failures.append("names a value needed for serialization lost its name")
+            fail("names", "a value needed for serialization lost its name")
         if before is not None and after is None:
-            failures.append("names the model serialized before the pass and does not serialize after it")
+            fail("names", "the model serialized before the pass and does not serialize after it")
         rd["diff"] = snap_diff(snap_b, snap_a) if same else None
         rounds.append(rd)
         model = out
+        if first_false is not None and rd["ser_equal"] is False:
+            fail("fixpoint", "the model changed in a round after the pass had reported no modification", rd["diff"])
         if not res.modified:
             if first_false is None:
                 first_false = r
@@ -590,11 +623,12 @@ def oracle_run(spec: dict, pspec, fault: str | None = None, max_rounds: int | No
                 break
         else:
             if first_false is not None:
-                failures.append("fixpoint pass reported modified=True after a round that reported no modification")
+                if not composite:
+                    fail("fixpoint", "pass reported modified=True after a round that reported no modification")
                 break
         r += 1
-    if first_false is None and not any("raised" in x for x in rounds):
-        failures.append(f"fixpoint no round with modified=False within size+2={bound} rounds")
+    if first_false is None and not any("raised" in x for x in rounds) and not composite:
+        fail("fixpoint", f"no round with modified=False within size+2={bound} rounds")
     return {"rounds": rounds, "failures": failures, "size": size, "first_false": first_false,
             "lazy_calls": dict(built.lazy_calls)}
 
